@@ -85,6 +85,11 @@ var ExprShapes = []string{
 	"- ( ( a [ 1 ] ) )",
 	"( ( ( - 1 ) ) ) [ 1 ]",
 	"not ( ( not ( ( a ) ) ) ) ? ( ( b ) )",
+	// 66-69: conditionals whose branches are constants, nested conditionals
+	"iff ( a , true , false ) ? b",
+	"iif ( a ? b , false , true )",
+	"iff ( a , 1 , iff ( b , 2.5 , 's' ) ) ? U",
+	"iff ( isnull ( a ) , null , a ) ? iff ( b , true , null )",
 }
 
 func isBinaryOpKind(k parser.TokenKind) bool {
